@@ -112,9 +112,15 @@ def gen(a):
     rng.shuffle(allsites)
     # at most 3 mutants per (file, operator) so that big files do not dominate
     cnt, chosen = {}, []
+    skip = set()
+    if a.skip_done:
+        skip = set(tuple(x) for x in json.load(open(a.skip_done)))
     for s in allsites:
         k = (s[0], s[1])
-        if cnt.get(k, 0) >= 3:
+        line = open(os.path.join(REPO, s[0])).read().count("\n", 0, s[2]) + 1
+        if ("%s:%d" % (s[0], line), s[1]) in skip:
+            continue
+        if cnt.get(k, 0) >= a.cap:
             continue
         cnt[k] = cnt.get(k, 0) + 1
         chosen.append(s)
@@ -198,7 +204,7 @@ def check(a):
                     break
         fired, incon, applies = run_checks(d, stage1)
         ran = list(stage1)
-        if not fired and not a.checks and applies:
+        if not fired and not a.checks and applies and not a.no_stage2:
             rest = [c for c in ALL if c not in stage1]
             f2, i2, _ = run_checks(d, rest)
             fired, incon, ran = fired + f2, incon + i2, ran + rest
@@ -224,9 +230,12 @@ def main():
     g.add_argument("--seed", type=int, default=1)
     g.add_argument("--out", required=True)
     g.add_argument("-j", type=int, default=4)
+    g.add_argument("--cap", type=int, default=3, help="max mutants per (file, operator)")
+    g.add_argument("--skip-done", default=None, help="JSON list of [file:line, operator] pairs already tried")
     c = sub.add_parser("check")
     c.add_argument("--dir", required=True)
     c.add_argument("--checks", default=None)
+    c.add_argument("--no-stage2", action="store_true", help="only the checks mapped to the mutated file plus the fast broad ones")
     c.add_argument("-j", type=int, default=3)
     a = ap.parse_args()
     if a.cmd == "gen":
